@@ -27,7 +27,7 @@ Traces == ndJsonDeserialize(IOEnv.TRACE_FILE)
 VARIABLES evs, lists, mlists, aggs, hist, last, steps, tid, l, memo, keys0, saved0, args0
 ovars == <<evs, lists, mlists, aggs, hist, last, steps>>
 
-O == INSTANCE Objects WITH Cfgs <- {"c1", "c2", "c3", "c5"}, Inputs <- {"i1", "i2", "i3"}, MaxEvaluators <- 3, MaxSteps <- 1000,
+O == INSTANCE Objects WITH Cfgs <- {"c1", "c2", "c3", "c4", "c5"}, Inputs <- {"i1", "i2", "i3"}, MaxEvaluators <- 3, MaxSteps <- 1000,
                            AliasKeys <- FALSE, PerCallTimes <- FALSE,
                            DefaultCfgs <- {"c1", "c5"}, RejectedCfgs <- {"c5"}, MutateArgs <- FALSE
 
